@@ -32,9 +32,7 @@ TRUSTED = ["CPython's eval of the generated source `lambda args: f(g(x), y)`: th
            "IEEE-754 double +,-,*,< are the same operations in Lean's Float (float-typed trees)"]
 ASSUMPTIONS = ["node texts (primitive names, argument names, named terminals, reprs of constants) are non-empty and contain no "
                "separator character ` \\t\\n\\r\\f\\v(),` — ints, floats, bools, identifiers",
-               "the value of an ephemeral / constant has a Python type that is a subclass of its declared type",
-               "the compiled callable is called before another individual is compiled against the same ADF sets "
-               "(compileADF binds ADF names late, through the mutable pset.context)"]
+               "the value of an ephemeral / constant has a Python type that is a subclass of its declared type"]
 EXPLANATION = ("proof for the string builder (all arities), the tokenizer and the parser round trip incl. equal evaluation of the "
                "re-parsed tree and the ADF evaluation order; partial for 'the compiled callable': Python's evaluator is trusted, "
                "tied to evalTree by the differential run")
@@ -185,6 +183,7 @@ def val_tok(v):
 
 
 def untyped(key, nargs, prims, consts, named=(), eph=True, rename=None):
+    """an untyped set named MAIN"""
     p = gp.PrimitiveSet("MAIN", nargs)
     for f, ar, name in prims:
         p.addPrimitive(f, ar, name=name)
@@ -202,6 +201,12 @@ def untyped(key, nargs, prims, consts, named=(), eph=True, rename=None):
 def b_u2():
     return untyped("u2", 2, [(f_add, 2, "add"), (f_sub, 2, "sub"), (f_mul, 2, "mul"), (f_neg, 1, "neg"),
                              (f_max2, 2, "max"), (f_ite, 3, "if_then_else")], [1, -1], [("three", 3)])
+
+
+def b_u2x():
+    # the twin of u2: same name, same argument names, same vocabulary — but `max` and `three` are bound differently
+    return untyped("u2x", 2, [(f_add, 2, "add"), (f_sub, 2, "sub"), (f_mul, 2, "mul"), (f_neg, 1, "neg"),
+                              (f_sub, 2, "max"), (f_ite, 3, "if_then_else")], [1, -1], [("three", 30)])
 
 
 def b_u2r():
@@ -253,6 +258,7 @@ BUILDERS = {"u2": b_u2, "u2r": b_u2r, "u0": b_u0, "u1": b_u1,
             "tf": lambda: typed("tf", [float, int, bool], float, rename={"ARG0": "a", "ARG2": "flag"}),
             "tb": lambda: typed("tb", [], bool)}
 PSNAMES = sorted(BUILDERS)
+BUILDERS["u2x"] = b_u2x
 _cache = {}
 
 
@@ -262,8 +268,8 @@ def get_ps(key):
     return _cache[key]
 
 
-def adf_family(typed_=False):
-    """main calls ADF1 and ADF2; ADF1 calls ADF2 (two levels)"""
+def adf_family(nmain=1):
+    """main (with `nmain` arguments; 0 = compileADF returns a value) calls ADF1 and ADF2; ADF1 calls ADF2"""
     a2 = gp.PrimitiveSet("ADF2", 2)
     a2.addPrimitive(f_add, 2, name="add")
     a2.addPrimitive(f_mul, 2, name="mul")
@@ -274,7 +280,7 @@ def adf_family(typed_=False):
     a1.addADF(a2)
     a1.addTerminal(2)
     a1.renameArguments(ARG0="u")
-    m = gp.PrimitiveSet("MAIN", 1)
+    m = gp.PrimitiveSet("MAIN", nmain)
     m.addPrimitive(f_add, 2, name="add")
     m.addPrimitive(f_max2, 2, name="max")
     m.addADF(a1)
@@ -288,10 +294,10 @@ _adf = {}
 ADF_HEIGHT_CAP = (3, 3, 3)
 
 
-def get_adf():
-    if "f" not in _adf:
-        _adf["f"] = adf_family()
-    return _adf["f"]
+def get_adf(nmain=1):
+    if nmain not in _adf:
+        _adf[nmain] = adf_family(nmain)
+    return _adf[nmain]
 
 
 # ----------------------------------------------------------------------------------------------
@@ -401,7 +407,7 @@ def capture_compile(tree, pset):
         f = gp.compile(tree, pset)
     finally:
         del gp.eval
-    return f, seen[0]
+    return f, (seen[0] if seen else None)
 
 
 def call(f, pset, args):
@@ -426,8 +432,9 @@ def tree_case(d, ps, tree, rng, tagprefix):
     lines.append("C12 render %s" % nodes)
     expect.append(enc(s))
     f, src = capture_compile(tree, pset)
-    lines.append("C12 src %s %s" % (ps.args_tok(), nodes))
-    expect.append(enc(src))
+    if src is not None:
+        lines.append("C12 src %s %s" % (ps.args_tok(), nodes))
+        expect.append(enc(src))
     toks = [t for t in re.split("[ \t\n\r\f\v(),]", s) if t != ""]
     lines.append("C12 tokens %s" % enc(s))
     expect.append(",".join(enc(t) for t in toks))
@@ -484,7 +491,7 @@ def evaluate(d):
         return tree_case(d, ps, tree, rng, "tree")
 
     if k == "adf":
-        fam = get_adf()
+        fam = get_adf(d.get("nmain", 1))
         trees = []
         for ps, g, cap in zip(fam, d["gs"], ADF_HEIGHT_CAP):
             t = make_tree(ps.pset, g)
@@ -493,7 +500,10 @@ def evaluate(d):
             trees.append(t)
         psets = [ps.pset for ps in fam]
         f = gp.compileADF(trees, psets)
-        tuples = [(v,) for v in [-2, -1, 0, 1, 2, 3] + [rng.randint(-9, 9) for _ in range(4)]]
+        if d.get("nmain", 1) == 0:
+            tuples = [()]
+        else:
+            tuples = [(v,) for v in [-2, -1, 0, 1, 2, 3] + [rng.randint(-9, 9) for _ in range(4)]]
         got, orc = [], None
 
         def direct(level, args):
@@ -503,7 +513,7 @@ def evaluate(d):
                 ctx[psets[j].name] = (lambda jj: (lambda *a: direct(jj, a)))(j)
             return interp(list(trees[level]), ctx, dict(zip(ps.arguments, args)))
         for tup in tuples:
-            v = f(*tup)
+            v = call(f, psets[0], tup)
             got.append(v)
             w = direct(0, tup)
             if not same_value(v, w) and orc is None:
@@ -513,31 +523,75 @@ def evaluate(d):
         for ps, t in zip(fam, trees):
             parts.append("%s %s %s %s %s" % (enc(ps.pset.name), ps.args_tok(), ps.funs_tok(), ps.vars_tok(), ps.nodes_tok(t)))
         line = "C12 adf %s %s" % (tuples_tok(tuples), " ".join(parts))
-        cases = Case(d, [line], [",".join(val_tok(v) for v in got)], orc, tag="adf", nontrivial=True)
+        tag = "adf/main%d/%s" % (d.get("nmain", 1), "calls" if any(n.name.startswith("ADF") for n in trees[0]) else "plain")
+        cases = Case(d, [line], [",".join(val_tok(v) for v in got)], orc, tag=tag, nontrivial=True)
         # each tree of the family also prints / parses / compiles on its own (ADF names are in the mapping)
         if orc is None and d.get("each", True):
             sub = tree_print_only(fam[0], trees[0])
-            cases = Case(d, [line] + sub[0], [",".join(val_tok(v) for v in got)] + sub[1], sub[2], tag="adf", nontrivial=True)
+            cases = Case(d, [line] + sub[0], [",".join(val_tok(v) for v in got)] + sub[1], sub[2], tag=tag, nontrivial=True)
         return cases
 
     if k == "adf-late":
-        # the callable of individual A, called after individual B was compiled against the same sets
-        fam = get_adf()
+        # the callable of individual A, called after individual B was compiled against the same sets, must
+        # still compute A's trees
+        fam = get_adf(1)
         psets = [ps.pset for ps in fam]
-        A = [make_tree(ps.pset, g) for ps, g in zip(fam, d["gs"][:3])]
-        B = [make_tree(ps.pset, g) for ps, g in zip(fam, d["gs"][3:])]
+
+        def mk(gs):
+            out = []
+            for ps, g, cap in zip(fam, gs, ADF_HEIGHT_CAP):
+                t = make_tree(ps.pset, g)
+                if t.height > cap:
+                    t = make_tree(ps.pset, dict(g, mn=0, mx=1, ops=[]))
+                out.append(t)
+            return out
+        A, B = mk(d["gs"][:3]), mk(d["gs"][3:])
+
+        def direct(level, args):
+            ps = psets[level]
+            ctx = dict(ps.context)
+            for j in range(level + 1, len(psets)):
+                ctx[psets[j].name] = (lambda jj: (lambda *a: direct(jj, a)))(j)
+            return interp(list(A[level]), ctx, dict(zip(ps.arguments, args)))
         fA = gp.compileADF(A, psets)
-        tuples = arg_tuples(list(psets[0].ins), rng, cap=8)
-        first = [fA(*t) for t in tuples]
+        tuples = [(v,) for v in [-2, -1, 0, 1, 2, 3] + [rng.randint(-9, 9) for _ in range(3)]]
         gp.compileADF(B, psets)
         orc = None
-        for t, v in zip(tuples, first):
-            w = fA(*t)
+        for t in tuples:
+            w, v = fA(*t), direct(0, t)
             if not same_value(v, w):
-                orc = ("compiled callable of [%s] returns %r at %r after another individual was compiled (it returned %r "
-                       "before, which is the value of the trees)" % (" | ".join(map(str, A)), w, t, v))
+                orc = ("compiled callable of [%s] returns %r at %r after another individual [%s] was compiled; the value "
+                       "of its trees is %r" % (" | ".join(map(str, A)), w, t, " | ".join(map(str, B)), v))
                 break
         return Case(d, [], [], orc, tag="adf-late", nontrivial=True)
+
+    if k == "twin":
+        # the same printed tree compiled against two distinct sets with the same name and vocabulary but different
+        # bindings, one after the other: each callable must use ITS set's functions / terminals
+        pa, pb = get_ps("u2"), get_ps("u2x")
+        if d.get("swap"):
+            pa, pb = pb, pa
+        ta = make_tree(pa.pset, d["g"])
+        s = str(ta)
+        tb = gp.PrimitiveTree.from_string(s, pb.pset)
+        tuples = arg_tuples(list(pa.pset.ins), rng, cap=10)
+        lines, expect, orc = [], [], None
+        fa = gp.compile(ta, pa.pset)
+        fb = gp.compile(tb, pb.pset)
+        for ps, tree, f in ((pa, ta, fa), (pb, tb, fb)):
+            got = []
+            for tup in tuples:
+                v = f(*tup)
+                got.append(v)
+                want = interp(list(tree), ps.pset.context, dict(zip(ps.pset.arguments, tup)))
+                if not same_value(v, want) and orc is None:
+                    orc = "compiled against set %s: %s%r = %r but direct evaluation with that set's bindings gives %r" % (
+                        ps.key, s, tup, v, want)
+            lines.append("C12 ev %s %s %s %s %s" % (ps.funs_tok(), ps.vars_tok(), ps.args_tok(), ps.nodes_tok(tree),
+                                                  tuples_tok(tuples)))
+            expect.append(",".join(val_tok(v) for v in got))
+        uses = any(n.name in ("max", "three") for n in ta)
+        return Case(d, lines, expect, orc, tag="twin/%s" % ("differs" if uses else "same"), nontrivial=uses)
 
     if k == "text":
         # hand-made strings: tokenizer and from_string type checks (correspondence) — no oracle claim
@@ -613,10 +667,14 @@ def generate(tier, rng, mult):
                         continue
                     for _ in range(2 if thorough else 1):
                         yield {"k": "tree", "ps": key, "g": gen_desc(rng, mn, mx, mode), "seed": rng.randrange(1 << 30)}
-    if late_known():
-        for _ in range(20):
-            gs = [gen_desc(rng, 1, 2, "full") for _ in range(6)]
-            yield {"k": "adf-late", "gs": gs, "seed": rng.randrange(1 << 30)}
+    for _ in range((3000 if thorough else 150) * mult):
+        gs = [gen_desc(rng, rng.randint(0, 2), 2, rng.choice(["full", "grow", "half"])) for _ in range(6)]
+        yield {"k": "adf-late", "gs": gs, "seed": rng.randrange(1 << 30)}
+    for _ in range((3000 if thorough else 200) * mult):
+        mx = rng.choice([1, 2, 2, 3, 4])
+        yield {"k": "twin", "g": gen_desc(rng, rng.randint(0, mx), mx, rng.choice(["full", "grow", "half"]),
+                                          nops=rng.choice([0, 0, 1, 2])),
+               "swap": rng.random() < 0.5, "seed": rng.randrange(1 << 30)}
     n = (120000 if thorough else 4000) * mult
     for i in range(n):
         r = rng.random()
@@ -633,7 +691,7 @@ def generate(tier, rng, mult):
                 mx = rng.choice([0, 1, 2, 2, 3, 4])
                 gs.append(gen_desc(rng, rng.randint(0, mx), mx, rng.choice(["full", "grow", "half"]),
                                    nops=rng.choice([0, 0, 1, 2])))
-            yield {"k": "adf", "gs": gs, "seed": rng.randrange(1 << 30)}
+            yield {"k": "adf", "gs": gs, "nmain": rng.choice([1, 1, 0]), "seed": rng.randrange(1 << 30)}
         else:
             key = rng.choice(PSNAMES)
             ps = get_ps(key)
@@ -660,7 +718,12 @@ def shrink(d):
             e = dict(d)
             e["g"] = h
             yield e
-    if d["k"] == "adf":
+    if d["k"] == "twin":
+        for h in smaller(d["g"]):
+            e = dict(d)
+            e["g"] = h
+            yield e
+    if d["k"] in ("adf", "adf-late"):
         for i, g in enumerate(d["gs"]):
             for h in smaller(g):
                 e = dict(d)
@@ -673,21 +736,5 @@ def shrink(d):
             yield e
 
 
-LATE_KEY = "compileADF-late-binding"
-
-
-def late_known(known=None):
-    """id of the known finding 'compileADF binds ADF names late through the shared pset.context', if listed"""
-    if known is None:
-        import lib
-        known = lib.load_known("C12")
-    for k in known:
-        if LATE_KEY in (k.get("key", "") + " " + k.get("what", "")):
-            return k.get("id")
-    return None
-
-
 def classify(desc, msg, known):
-    if isinstance(desc, dict) and desc.get("k") == "adf-late" and "after another individual was compiled" in msg:
-        return late_known(known)
     return None
